@@ -1810,8 +1810,8 @@ pub fn spec(name: &str, m0: &M) -> Exp {
                     if p < m.c.len() {
                         m.c[p] = rec;
                     } else {
-                        // the addressed record was itself consumed by the id vector: nothing left to replace
-                        return Exp::Any;
+                        // the addressed record was itself consumed by the id vector: the new record is kept on top
+                        m.c.insert(0, rec);
                     }
                 }
             }
